@@ -228,7 +228,7 @@ def _work(task):
             acc.count("nodes", n)
             res = dedupe(check_tree(SG.build(s)) + check_from_root(SG.build(s)))
             for k, d in res:
-                acc.violation(f"{k}|{RW.pat(s, 1)}", {"sig": s}, d)
+                acc.violation(f"{k}|{RW.pat(s, 1)}", {"sig": s, "task": list(task)}, d)
             if n > 1:
                 acc.count("nontrivial")
             if i == lo and n >= 3:
@@ -257,7 +257,7 @@ def _work(task):
                 s = SG.sig(t)
                 res = dedupe(check_tree(SG.build(s)) + check_from_root(t))
                 for k, d in res:
-                    acc.violation(f"{k}|{RW.pat(s, 1)}", {"text": text, "trace": trace}, d)
+                    acc.violation(f"{k}|{RW.pat(s, 1)}", {"text": text, "trace": trace, "task": ["texts", list(texts[: texts.index(text) + 1])]}, d)
     return acc
 
 
@@ -277,7 +277,9 @@ def run(tier, seed):
     tasks += [("texts", texts[i::48]) for i in range(48)]
     k = seed % len(tasks)
     tasks = tasks[k:] + tasks[:k]
-    acc = merge_all(par.pmap(_work, tasks))
+    # every task in its own freshly forked process: class- or module-level state of the code under test then
+    # depends only on the task, and a violation is replayed by re-running its task the same way
+    acc = merge_all(par.pmap(_work, tasks, fresh=True))
     cov = {
         "evaluations": acc.n["trees"],
         "distinct_nontrivial": acc.n["nontrivial"],
@@ -292,6 +294,27 @@ def run(tier, seed):
 
 
 def replay(case):
+    want = case.get("_core")
+    try:
+        got = par.run_fresh(_replay_direct, case)  # own process: must not pollute the next level
+    except Exception:  # noqa
+        got = []
+    if got and (want is None or any(c == want for c, _ in got)):
+        return got
+    if "task" in case:
+        def tup(x):
+            return tuple(tup(i) for i in x) if isinstance(x, list) and x and not isinstance(x[0], str) else x
+        task = case["task"]
+        task = tuple(task) if task[0] != "texts" else ("texts", list(task[1]))
+        a = par.run_fresh(_work, task)
+        again = [(c, e["examples"][0]["detail"]) for c, e in a.viol.items()]
+        if want is not None and any(c == want for c, _ in again):
+            return [(c, d) for c, d in again if c == want]
+        return again or got
+    return got
+
+
+def _replay_direct(case):
     if "sig" in case:
         def tup(x):
             return tuple(tup(i) for i in x) if isinstance(x, list) else x
